@@ -254,8 +254,10 @@ CoresX(dummy) ==
 (* ALGORITHM                                                                *)
 Grp == scn.groups[gi]
 N == NAll(Grp)
-Lo(b) == (b - 1) * scn.batch + 1                        \* _data_split: range(0, n, batch)
-Hi(b, n) == IF b * scn.batch < n THEN b * scn.batch ELSE n
+LoB(k, b) == (k - 1) * b + 1                            \* _data_split: range(0, n, batch): k-th batch of size b
+HiB(k, b, n) == IF k * b < n THEN k * b ELSE n
+Lo(k) == LoB(k, scn.batch)
+Hi(k, n) == HiB(k, scn.batch, n)
 McFirst == scn.kind \in CfitKinds \cup {"simple"}       \* cfit.py:107, custom.py:125: integrals first
 
 \* Initial states are *seeds* (kind, path, constraints, scale, data weights of
@@ -478,6 +480,10 @@ Post ==
        IN JsonSerialize(IOEnv.OUT_FILE,
             [ncores |-> Cardinality(crs),
              tables |-> [FD |-> FD, GM |-> GMTab, ED |-> ED, EM |-> EM, BD |-> BD, BM |-> BM],
+             \* the batches of a sample of n events for batch size b (what Partition is about), for the
+             \* comparison with the batches the code actually processes
+             parts |-> {<<n, b, [k \in 1..NBatches(n, b) |-> HiB(k, b, n) - LoB(k, b) + 1]>> :
+                           n \in 1..(MaxData + MaxBg + MaxMC), b \in 1..(MaxData + MaxBg + MaxMC + 1)},
              cores |-> IF Cardinality(crs) <= EmitMax
                        THEN {[core |-> c, maxn |-> MaxN(c.groups), q |-> Def(c).q, lg |-> LgOut(Def(c).lg)] : c \in crs}
                        ELSE {}])
